@@ -20,8 +20,9 @@ def configs(tier):
         if name not in [n for n, _ in out]:
             out.append((name, cfg))
 
-    ents_q = [("none", False, 0), ("strong", True, 2), ("weak", True, 1), ("comma", False, 2)]
-    ents_t = list(itertools.product(["none", "strong", "weak", "comma"], [False, True], [0, 1, 2]))
+    # (nhdr = 3: the entity supplies a repeated header field, two Content-Language values)
+    ents_q = [("none", False, 0), ("strong", True, 2), ("weak", True, 1), ("comma", False, 3)]
+    ents_t = list(itertools.product(["none", "strong", "weak", "comma"], [False, True], [0, 1, 2, 3]))
     ents = ents_q if tier == "quick" else ents_t
     for m in ("GET", "HEAD"):
         for e, mt, nh in ents:
